@@ -1388,6 +1388,24 @@ func (env *rEnv) call(n *rNode) Value {
 		return sym(Select(env.st().g.CollLastCas, argT(0), SInt))
 	case "ismissing":
 		return sym(env.errIs(env.eval(n.Args[0]), sgb, "MissingError"))
+	case "wrapsmissing":
+		// wrapsmissing(err): err is, or wraps (%w), a sgbucket.MissingError - what errors.As finds
+		v := env.eval(n.Args[0])
+		if id, ok := opaqueErrID(v); ok {
+			return sym(env.post.declare(fmt.Sprintf("err.%d.is.%s", id, "MissingError"), SBool))
+		}
+		if iv, ok := v.(VIface); ok {
+			chain, _ := env.e.unwrapChain(env.post, iv)
+			for _, c := range chain {
+				if id, ok := opaqueErrID(c); ok {
+					return sym(env.post.declare(fmt.Sprintf("err.%d.is.%s", id, "MissingError"), SBool))
+				}
+				if c.Typ != nil && typeIsPkg(c.Typ, sgb, "MissingError") {
+					return sym(TTrue)
+				}
+			}
+		}
+		return sym(TFalse)
 	case "iscasmismatch":
 		return sym(env.errIs(env.eval(n.Args[0]), sgb, "CasMismatchErr"))
 	case "istoobig":
